@@ -582,7 +582,7 @@ class FermionicArray(AbelianArray):
 
         if phase_dual:
             axs_conj = tuple(
-                ax for ax, ix in enumerate(new_indices) if ix.dual
+                ax for ax, ix in enumerate(new_indices) if not ix.dual
             )
             new.phase_flip(*axs_conj, inplace=True)
 
